@@ -140,8 +140,22 @@ def imager_case(ctx, k, rng):
     steps = int(rng.integers(2, 9))
     tolscale = 5.0
     did_transform_after_two_fits = False
+    shallow = None          # (shallow copy of the fitted estimator, probe data, its images at copy time): a template from which per-class /
+    #                      per-fold imagers are derived; what happens to the original afterwards must not reach the copy
+    import copy as _copy
     try:
         for t in range(steps):
+            if shallow is not None and rng.random() < 0.5:
+                ctx.ran()
+                again = shallow[0].transform(shallow[1], skew=True)
+                ctx.check("imager: a shallow copy taken earlier still gives the images it gave then", imgs_close(again, shallow[2], 0.0) and
+                          imager_public(shallow[0]) == shallow[3], step=t, copy_state=imager_public(shallow[0]), at_copy_time=shallow[3])
+            if last_fit is not None and shallow is None and rng.random() < 0.25:
+                Yp = gen_dataset(rng, *extents[int(rng.integers(0, len(extents)))], k=2)
+                tw = _copy.copy(P)
+                ctx.ran()
+                shallow = (tw, Yp, tw.transform(Yp, skew=True), imager_public(tw))
+                ctx.note("shallow copies of fitted imagers")
             op = str(rng.choice(["fit", "fit", "transform", "fit_transform", "set_pixel", "set_birth", "set_pers", "transform"]))
             if op in ("fit", "fit_transform"):
                 e = extents[int(rng.integers(0, len(extents)))]
